@@ -205,13 +205,20 @@ pub fn sites(tier: Tier) -> Vec<Site> {
     // mishandled needs one particular count, not a boundary one
     {
         let n_max: u64 = if tier == Tier::Thorough { 40_000 } else { 8_192 };
-        let per = n_max + 1;
+        // beyond the complete range a ladder: 2^k - 1, 2^k, 2^k + 1 up to 2^17 and every multiple of 4096 up to 2^17
+        let mut ladder: Vec<u64> = vec![];
+        for k in 13..=17u32 { for d in [-1i64, 0, 1] { ladder.push(((1i64 << k) + d) as u64); } }
+        let mut m = 4096u64; while m <= (1 << 17) { ladder.push(m); m += 4096; }
+        ladder.retain(|x| *x > n_max);
+        ladder.sort(); ladder.dedup();
+        let ladder = std::sync::Arc::new(ladder);
+        let per = n_max + 1 + ladder.len() as u64;
         sites.push(Site::new("count-sweep", per * 5,
-            &format!("files with every count 0..={n_max} in one count field at a time {{PTH nodes, SMX objects (empty), SMX points, SMX triangles (one object), SMX checkpoints}}: parsed, written back byte for byte, re-parsed"),
+            &format!("files with every count 0..={n_max} (and beyond it 2^k-1, 2^k, 2^k+1 up to 2^17 and every multiple of 4096) in one count field at a time {{PTH nodes, SMX objects (empty), SMX points, SMX triangles (one object), SMX checkpoints}}: parsed, written back byte for byte, re-parsed"),
             move |i, acc| {
                 mark(3, i);
                 acc.eval();
-                let n = (i % per) as usize;
+                let n = { let j = i % per; if j <= n_max { j as usize } else { ladder[(j - n_max - 1) as usize] as usize } };
                 let f = match i / per {
                     0 => build_pth(n, 1),
                     1 => build_smx(n, 0, 0, 1, 1, b"Blackwood"),
